@@ -140,8 +140,96 @@ pub fn eval(case: &str) -> Out {
     if w.len() < 4 { return Out::ok("harnesserr args".into()); }
     match w[1] {
         "tp" | "tr" if w.len() == 4 => eval_text(w[1], w[2], w[3]),
+        "sd" if w.len() == 6 => eval_serde(w[2], w[5]),
         _ => Out::ok("harnesserr kind".into()),
     }
+}
+
+// ------------------------------------------------------------------------------------------------ serde
+fn serde_line<T: serde::Serialize + serde::de::DeserializeOwned + PartialEq>(v: &T) -> Out {
+    let mut fail: Option<String> = None;
+    let j = match serde_json::to_string(v) { Ok(j) => j, Err(e) => return Out { result: format!("J serr {}", e), pred_fail: Some("serde-json-serialize|serializing to JSON failed".into()) } };
+    let jv = match serde_json::from_str::<T>(&j) {
+        Ok(v2) => {
+            if v2 != *v { fail = Some(format!("serde-json-roundtrip|JSON {} deserializes to a different value", if j.len() < 300 { j.as_str() } else { "(long)" })); }
+            if serde_json::to_string(&v2).ok().as_deref() == Some(j.as_str()) { "ok same" } else { "ok diff" }
+        }
+        Err(e) => { fail = Some(format!("serde-json-roundtrip|own JSON does not deserialize: {}", e)); "err" }
+    };
+    let c = match serde_cbor::to_vec(v) { Ok(c) => c, Err(e) => return Out { result: format!("C serr {}", e), pred_fail: Some("serde-cbor-serialize|serializing to CBOR failed".into()) } };
+    let cv = match serde_cbor::from_slice::<T>(&c) {
+        Ok(v2) => {
+            if v2 != *v && fail.is_none() { fail = Some("serde-cbor-roundtrip|own CBOR deserializes to a different value".to_string()); }
+            if serde_json::to_string(&v2).ok().as_deref() == Some(j.as_str()) { "ok same" } else { "ok diff" }
+        }
+        Err(e) => { if fail.is_none() { fail = Some(format!("serde-cbor-roundtrip|own CBOR does not deserialize: {}", e)); } "err" }
+    };
+    Out { result: format!("J {} {} C {} {}", j, jv, if c.is_empty() { "-".to_string() } else { hex(&c) }, cv), pred_fail: fail }
+}
+fn from_cons<T: elements::encode::Decodable>(arg: &str) -> Option<T> { elements::encode::deserialize::<T>(&unhex(arg)?).ok() }
+macro_rules! hash_serde { ($arg:expr, $t:ty, $n:expr) => { match arr::<$n>($arg) { Some(a) => serde_line(&<$t>::from_byte_array(a)), None => Out::ok("harnesserr value".into()) } }; }
+
+fn eval_serde(ty: &str, arg: &str) -> Out {
+    use elements::confidential::{Asset, Nonce, Value};
+    use elements::dynafed::{ElidedRoot, ParamsRoot};
+    use elements::taproot::{TapLeafHash, TapNodeHash, TapTweakHash};
+    let bad = || Out::ok("harnesserr value".into());
+    match ty {
+        "tx" => from_cons::<elements::Transaction>(arg).map(|t| serde_line(&t)).unwrap_or_else(bad),
+        "txin1" => from_cons::<elements::Transaction>(arg).filter(|t| t.input.len() == 1).map(|t| serde_line(&t.input[0])).unwrap_or_else(bad),
+        "txout1" => from_cons::<elements::Transaction>(arg).filter(|t| t.output.len() == 1).map(|t| serde_line(&t.output[0])).unwrap_or_else(bad),
+        "header" => from_cons::<elements::BlockHeader>(arg).map(|t| serde_line(&t)).unwrap_or_else(bad),
+        "block" => from_cons::<elements::Block>(arg).map(|t| serde_line(&t)).unwrap_or_else(bad),
+        "params" => from_cons::<elements::dynafed::Params>(arg).map(|t| serde_line(&t)).unwrap_or_else(bad),
+        "value" => from_cons::<Value>(arg).map(|t| serde_line(&t)).unwrap_or_else(bad),
+        "asset" => from_cons::<Asset>(arg).map(|t| serde_line(&t)).unwrap_or_else(bad),
+        "nonce" => from_cons::<Nonce>(arg).map(|t| serde_line(&t)).unwrap_or_else(bad),
+        "outpoint" => (|| { let (t, n) = arg.split_once(':')?; Some(serde_line(&OutPoint::new(elements::Txid::from_byte_array(arr::<32>(t)?), u32_of(n)?))) })().unwrap_or_else(bad),
+        "locktime" => u32_of(arg).map(|n| serde_line(&LockTime::from_consensus(n))).unwrap_or_else(bad),
+        "secrets" => (|| {
+            let p: Vec<&str> = arg.split(',').collect();
+            if p.len() != 4 { return None; }
+            Some(serde_line(&elements::TxOutSecrets::new(elements::AssetId::from_byte_array(arr::<32>(p[0])?), AssetBlindingFactor::from_byte_array(arr::<32>(p[1])?).ok()?,
+                p[2].parse::<u64>().ok()?, ValueBlindingFactor::from_slice(&arr::<32>(p[3])?).ok()?)))
+        })().unwrap_or_else(bad),
+        "abf" => arr::<32>(arg).and_then(|a| AssetBlindingFactor::from_byte_array(a).ok()).map(|t| serde_line(&t)).unwrap_or_else(bad),
+        "vbf" => arr::<32>(arg).and_then(|a| ValueBlindingFactor::from_slice(&a).ok()).map(|t| serde_line(&t)).unwrap_or_else(bad),
+        "script" => (if arg == "-" { Some(vec![]) } else { unhex(arg) }).map(|b| serde_line(&elements::Script::from(b))).unwrap_or_else(bad),
+        "str" => {
+            // a type whose serde form is its Display string: the string is given, the type is found by parsing it
+            let s = match unhex(arg).and_then(|b| String::from_utf8(b).ok()) { Some(s) => s, None => return bad() };
+            if let Ok(a) = elements::Address::from_str(&s) { return serde_line(&a); }
+            if let Ok(a) = EcdsaSighashType::from_str(&s) { return serde_line(&a); }
+            if let Ok(a) = SchnorrSighashType::from_str(&s) { return serde_line(&a); }
+            if let Ok(a) = PsbtSighashType::from_str(&s) { return serde_line(&a); }
+            bad()
+        }
+        "hash:Txid" => hash_serde!(arg, elements::Txid, 32),
+        "hash:Wtxid" => hash_serde!(arg, elements::Wtxid, 32),
+        "hash:BlockHash" => hash_serde!(arg, elements::BlockHash, 32),
+        "hash:TxMerkleNode" => hash_serde!(arg, elements::TxMerkleNode, 32),
+        "hash:ScriptHash" => hash_serde!(arg, elements::ScriptHash, 20),
+        "hash:WScriptHash" => hash_serde!(arg, elements::WScriptHash, 32),
+        "hash:ContractHash" => hash_serde!(arg, elements::ContractHash, 32),
+        "hash:AssetEntropy" => hash_serde!(arg, elements::AssetEntropy, 32),
+        "hash:AssetId" => hash_serde!(arg, elements::AssetId, 32),
+        "hash:TapLeafHash" => hash_serde!(arg, TapLeafHash, 32),
+        "hash:TapNodeHash" => hash_serde!(arg, TapNodeHash, 32),
+        "hash:TapTweakHash" => hash_serde!(arg, TapTweakHash, 32),
+        "hash:ParamsRoot" => hash_serde!(arg, ParamsRoot, 32),
+        "hash:ElidedRoot" => hash_serde!(arg, ElidedRoot, 32),
+        "hash:DynafedRoot" => hash_serde!(arg, elements::DynafedRoot, 32),
+        _ => Out::ok("harnesserr type".into()),
+    }
+}
+fn sd(ty: &str, cons: Option<&[u8]>, arg: String, mut tags: Vec<String>, nontrivial: bool, out: &mut Vec<Case>) {
+    let pts = match cons { Some(b) => valid_points(b), None => vec![] };
+    tags.push(format!("serde:{}", ty.split(':').next().unwrap()));
+    out.push(Case { text: format!("C20 sd {} {} {} {}", ty, crate::c01::caps(), hexlist(&pts), arg), tags, nontrivial });
+}
+fn sd_cons<T: elements::encode::Encodable>(ty: &str, v: &T, tags: Vec<String>, out: &mut Vec<Case>) {
+    let b = elements::encode::serialize(v);
+    sd(ty, Some(&b), hex(&b), tags, true, out);
 }
 
 // ------------------------------------------------------------------------------------------------ generators
@@ -173,9 +261,60 @@ fn near_misses(rng: &mut ChaCha20Rng, s: &str) -> Vec<(String, &'static str)> {
     v
 }
 
-pub fn gen(rng: &mut ChaCha20Rng, n: usize, _thorough: bool) -> Vec<Case> {
+fn gen_serde(rng: &mut ChaCha20Rng, n: usize, thorough: bool, out: &mut Vec<Case>) {
+    use elements::{Transaction, Block};
+    let f = Feat { big: false, no_witness: false };
+    for k in 0..n {
+        let mut tags = vec![];
+        match k % 12 {
+            0 | 1 | 2 => { let t = rtx(rng, f, &mut tags); if elements::encode::serialize(&t).len() < (if thorough { 40000 } else { 9000 }) { sd_cons("tx", &t, tags, out); } }
+            3 | 4 => { let t = Transaction { version: 2, lock_time: LockTime::ZERO, input: vec![rtxin(rng, f, &mut tags)], output: vec![] }; sd_cons("txin1", &t, tags, out); }
+            5 | 6 => { let t = Transaction { version: 2, lock_time: LockTime::ZERO, input: vec![], output: vec![rtxout(rng, f, &mut tags)] }; sd_cons("txout1", &t, tags, out); }
+            7 | 8 => { let h = crate::c01::rheader(rng, &mut tags); sd_cons("header", &h, tags, out); }
+            9 => { let txs: Vec<Transaction> = (0..rng.gen_range(0..3)).map(|_| { let nw: bool = rng.gen(); rtx(rng, Feat { big: false, no_witness: nw }, &mut tags) }).collect();
+                   let b = Block { header: crate::c01::rheader(rng, &mut tags), txdata: txs };
+                   if elements::encode::serialize(&b).len() < 9000 { sd_cons("block", &b, tags, out); } }
+            10 => { let p = crate::c01::rparams(rng, &mut tags); sd_cons("params", &p, tags, out); }
+            _ => match rng.gen_range(0..3) { 0 => sd_cons("value", &rvalue(rng, true), tags, out), 1 => sd_cons("asset", &rasset(rng, true), tags, out), _ => sd_cons("nonce", &rnonce(rng), tags, out) },
+        }
+    }
+    // explicit values at the byte-swap boundaries
+    for v in [0u64, 1, 0xff, 0x100, 0x0102030405060708, 0xff00000000000000, u64::MAX, 1 << 63, 21_000_000_0000_0000] {
+        sd_cons("value", &elements::confidential::Value::Explicit(v), vec!["value:explicit-boundary".into()], out);
+    }
+    let m = (n / 10).max(3);
+    for k in 0..m {
+        let txid = if k == 0 { [0u8; 32] } else { r32(rng) };
+        let vout: u32 = pk!(rng, [0u32, 1, 0x3fff_ffff, 0x7fff_ffff, 0x8000_0000, 0xc000_0001, 0xffff_ffff, rng.gen()]);
+        sd("outpoint", None, format!("{}:{}", hex(&txid), vout), vec![], !(k == 0 && vout == u32::MAX), out);
+        let lt: u32 = pk!(rng, [0u32, 1, 499_999_999, 500_000_000, 0xffff_ffff, rng.gen()]);
+        sd("locktime", None, lt.to_string(), vec![], lt != 0, out);
+        let val: u64 = pk!(rng, [0u64, 1, u64::MAX, 1 << 53, (1 << 53) + 1, rng.gen()]);
+        sd("secrets", None, format!("{},{},{},{}", hex(&r32(rng)), hex(rtweak(rng).as_ref()), val, hex(rtweak(rng).as_ref())), vec![], true, out);
+        sd("abf", None, hex(rtweak(rng).as_ref()), vec![], true, out);
+        sd("vbf", None, if k == 0 { hex(&[0u8; 32]) } else { hex(rtweak(rng).as_ref()) }, vec![], k != 0, out);
+        let sl = boundary_len(rng, false);
+        sd("script", None, if sl == 0 { "-".into() } else { hex(&rbytes(rng, sl)) }, vec![], sl != 0, out);
+        for ty in HASH_TYPES { if k < 2 || rng.gen_range(0..4) == 0 { let len = if ty == "ScriptHash" { 20 } else { 32 }; sd(&format!("hash:{}", ty), None, hex(&rbytes(rng, len)), vec![], true, out); } }
+    }
+    // types whose serde form is their Display string
+    for s in ["SIGHASH_ALL", "SIGHASH_NONE|SIGHASH_ANYONECANPAY", "SIGHASH_DEFAULT", "SIGHASH_RESERVED", "0xff", "0x4"] { sd("str", None, shex(s), vec!["serde:string-form".into()], true, out); }
+    for _ in 0..m {
+        let pkh = elements::bitcoin::PublicKey::new(rpubkey(rng));
+        let blinder = if rng.gen() { Some(rpubkey(rng)) } else { None };
+        let params: &'static elements::AddressParams = match rng.gen_range(0..3) { 0 => &elements::AddressParams::LIQUID, 1 => &elements::AddressParams::ELEMENTS, _ => &elements::AddressParams::LIQUID_TESTNET };
+        let a = match rng.gen_range(0..3) {
+            0 => elements::Address::p2pkh(&pkh, blinder, params),
+            1 => elements::Address::p2wpkh(&pkh, blinder, params),
+            _ => elements::Address::p2wsh(&rscript(rng, false), blinder, params),
+        };
+        sd("str", None, shex(&a.to_string()), vec!["serde:address".into()], true, out);
+    }
+}
+
+pub fn gen(rng: &mut ChaCha20Rng, n: usize, thorough: bool) -> Vec<Case> {
     let mut out = Vec::new();
-    let _ = rtweak; // (shared generators are used by the serde part)
+    gen_serde(rng, n, thorough, &mut out);
     // ---- hash newtypes and blinding factors
     let per = (n / 40).max(2);
     for ty in HASH_TYPES.iter().chain(["AssetBlindingFactor", "ValueBlindingFactor"].iter()) {
